@@ -405,7 +405,7 @@ pub fn worker_main(check: &dyn Check, args: WorkerArgs) -> i32 {
         if let Err((loc, msg)) = r {
             // A panic that escaped the per-call guards.  If it comes from the harness itself it is
             // a harness error, not a verdict.
-            if loc.contains("/verif/") || loc.contains("harness/src") {
+            if loc.contains("/verif/") || loc.contains("harness/src") || loc.starts_with("src/") {
                 let _ = writeln!(
                     stdout,
                     "H {}",
